@@ -162,6 +162,42 @@ def check_fill(out: Outcome, s: np.ndarray, tag: str):
             out.nontrivial.add(('fill', tuple(col.tolist())))
 
 
+def check_fill_lifecycle(out: Outcome, rng, n_objects=48):
+    """states_prev / states_next over a HISTORY of objects: each Transitions is analysed, released, and the next one is created
+    straight afterwards (so that it is likely to live at the address the previous one had); the views of every object must be
+    those of ITS states.  Everything the constructor needs is prepared before, so that nothing else is allocated in between."""
+    sites = gem.make_sites(np.eye(3) * 8, hist.SITE_POOL[:2])
+    shapes = [(int(rng.integers(2, 9)), int(rng.integers(1, 4))) for _ in range(3)]
+    hs = []
+    for k in range(n_objects):
+        T, A = shapes[k % 3] if k % 4 else shapes[0]
+        hs.append(hist.random_histories(rng, T, A, int(rng.integers(1, 4)), inner=False)[0])
+    specs = [([hist.spec_ffill(h[:, a]) for a in range(h.shape[1])], [hist.spec_bfill(h[:, a]) for a in range(h.shape[1])]) for h in hs]
+    seen, reused = set(), 0
+    history = []
+    for k, h in enumerate(hs):
+        tr = Transitions(trajectory=None, diff_trajectory=None, sites=sites, events=None, states=h, inner_states=h)
+        reused += id(tr) in seen
+        seen.add(id(tr))
+        if k % 2:
+            prev, nxt = tr.states_prev(), tr.states_next()
+        else:
+            nxt, prev = tr.states_next(), tr.states_prev()
+        del tr
+        out.evaluations += 1
+        history.append(h.T.tolist())
+        wp, wn = np.array(specs[k][0]).T, np.array(specs[k][1]).T
+        for nm, got, want in (('states-prev', np.array(prev), wp), ('states-next', np.array(nxt), wn)):
+            if got.shape != want.shape or not np.array_equal(got, want):
+                out.fail('property', nm, {'via': 'fill-lifecycle', 'objects_analysed_and_released_before': history[:-1][-6:], 's': h.T.tolist()},
+                         expected=want.T.tolist(), observed=got.T.tolist()[:6], note='object created after earlier ones were released')
+                return
+    out.count('fill-lifecycle-objects', n_objects)
+    out.count('fill-lifecycle-address-reused', reused)
+    if reused:
+        out.nontrivial.add(('lifecycle', reused, n_objects))
+
+
 def check_public(out: Outcome, s: np.ndarray, i: np.ndarray, tag: str):
     """Through Trajectory.transitions_between_sites on a trajectory realising the itinerary."""
     traj, sites, kw = hist.realise(s, i)
@@ -268,6 +304,9 @@ def run(tier: str, seed: int, scale: int) -> Outcome:
     for k in range(1 * scale if tier == 'quick' else 3 * scale):
         s_, i_ = long_history(rng, int(rng.integers(33500, 36000)))
         check_public(out, s_, i_, 'public-long')
+    # objects analysed and released one after the other
+    for k in range((6 if tier == 'quick' else 60) * scale):
+        check_fill_lifecycle(out, rng)
     # public API path
     n_pub = (25 if tier == 'quick' else 300) * scale
     for k in range(n_pub):
@@ -288,6 +327,16 @@ def replay(case):
     s = np.array(case['s']).T
     i = np.array(case['i']).T
     out = Outcome()
+    if case.get('via') == 'fill-lifecycle':
+        sites = gem.make_sites(np.eye(3) * 8, hist.SITE_POOL[:2])
+        for h in [np.array(x).T for x in case['objects_analysed_and_released_before']] + [np.array(case['s']).T]:
+            tr = Transitions(trajectory=None, diff_trajectory=None, sites=sites, events=None, states=h, inner_states=h)
+            prev, nxt = np.array(tr.states_prev()), np.array(tr.states_next())
+            del tr
+        wp = np.array([hist.spec_ffill(h[:, a]) for a in range(h.shape[1])]).T
+        wn = np.array([hist.spec_bfill(h[:, a]) for a in range(h.shape[1])]).T
+        ok = prev.shape == wp.shape and np.array_equal(prev, wp) and np.array_equal(nxt, wn)
+        return ok, ('views of the last object are those of its states' if ok else 'views of the last object are not those of its states (depends on memory layout: re-run the check with the recorded seed if this replay passes)')
     if case.get('via') == 'public':
         check_public(out, s, i, 'replay')
     elif case.get('via') == 'fill':
@@ -307,7 +356,8 @@ SPEC = PropertySpec(
     rule=('exhaustive: every (site, inner-site) history of one atom with inner_t in {-1, site_t} over 2 sites + "none" up to the '
           'stated length, run through _calculate_transition_events in batches and alone; random multi-atom histories up to 400 frames '
           '(immobile, never-inner, flickering, direct site-to-site styles); the same through Trajectory.transitions_between_sites on '
-          'trajectories synthesised to realise the itinerary; states_prev/states_next through Transitions. A case (one atom history) '
+          'trajectories synthesised to realise the itinerary; states_prev/states_next through Transitions, also over histories of 48 objects each '
+          'analysed and released before the next is created (address reuse counted in the evidence). A case (one atom history) '
           'is non-trivial when it has >= 2 changes and a change at the first/last frame, a direct site-to-site move, a return to the '
           'same site, an inner-only change or >= 3 visited sites; distinct = distinct (site, inner) history.'),
     trusted=['np.nonzero / slicing / np.union1d / fancy indexing semantics as modelled in GModel.Events (validated by this correspondence)',
